@@ -75,18 +75,23 @@ static void load_one(const std::string& data, bool stream, const SerializationOp
 	else LoadObject<TArchive>(target, data, opt);
 }
 
-template <class TArchive>
+template <class TArchive, bool RootScalars = true>
 static bool load_target(int tgt, const std::string& data, bool stream, const SerializationOptions& opt) {
+	if constexpr (RootScalars) {
+		switch (tgt) {
+		case 0: load_one<TArchive, int>(data, stream, opt); return true;
+		case 1: load_one<TArchive, std::string>(data, stream, opt); return true;
+		case 8: load_one<TArchive, double>(data, stream, opt); return true;
+		default: break;
+		}
+	}
 	switch (tgt) {
-	case 0: load_one<TArchive, int>(data, stream, opt); return true;
-	case 1: load_one<TArchive, std::string>(data, stream, opt); return true;
 	case 2: load_one<TArchive, std::vector<int>>(data, stream, opt); return true;
 	case 3: load_one<TArchive, std::vector<std::string>>(data, stream, opt); return true;
 	case 4: load_one<TArchive, std::map<std::string, int>>(data, stream, opt); return true;
 	case 5: load_one<TArchive, Outer>(data, stream, opt); return true;
 	case 6: load_one<TArchive, std::vector<Inner>>(data, stream, opt); return true;
 	case 7: load_one<TArchive, std::vector<std::vector<std::map<std::string, std::vector<int>>>>>(data, stream, opt); return true;
-	case 8: load_one<TArchive, double>(data, stream, opt); return true;
 	case 9: load_one<TArchive, std::tuple<int, std::string, std::vector<int>>>(data, stream, opt); return true;
 	default: return false;
 	}
@@ -148,7 +153,7 @@ int main() {
 				const std::string& a = t.at(1);
 				if (a == "mp") known = load_target<MsgPackArchive>(tgt, data, stream, opt);
 				else if (a == "json") known = load_target<JsonArchive>(tgt, data, stream, opt);
-				else if (a == "xml") known = load_target<XmlArchive>(tgt, data, stream, opt);
+				else if (a == "xml") known = load_target<XmlArchive, false>(tgt, data, stream, opt);
 				else if (a == "csv") known = load_csv(tgt, data, stream, opt);
 				else known = false;
 			}
